@@ -108,12 +108,16 @@ class ConstantFolder(BlockPass):
                     and self.is_const(instruction.a.b)
                     and (instruction.operation == "+")
                     and self.is_const(instruction.b)
+                    and not isinstance(instruction.ty, ir.FloatingPointTyp)
                 ):
                     # Now we can replace x = (y+5)+5 with x = y + 10
+                    # (not for floating point: that addition rounds)
                     a = self.eval_const(instruction.a.b)
                     b = self.eval_const(instruction.b)
                     assert a.ty is b.ty
-                    cn = ir.Const(a.value + b.value, "new_fold", a.ty)
+                    cn = ir.Const(
+                        cast(a.value + b.value, a.ty), "new_fold", a.ty
+                    )
                     block.insert_instruction(
                         cn, before_instruction=instruction
                     )
@@ -129,12 +133,15 @@ class ConstantFolder(BlockPass):
                     and self.is_const(instruction.a.b)
                     and instruction.operation == "-"
                     and self.is_const(instruction.b)
+                    and not isinstance(instruction.ty, ir.FloatingPointTyp)
                 ):
                     # Now we can replace x = (y-5)-5 with x = y - 10
                     a = self.eval_const(instruction.a.b)
                     b = self.eval_const(instruction.b)
                     assert a.ty is b.ty
-                    cn = ir.Const(a.value + b.value, "new_fold", a.ty)
+                    cn = ir.Const(
+                        cast(a.value + b.value, a.ty), "new_fold", a.ty
+                    )
                     block.insert_instruction(
                         cn, before_instruction=instruction
                     )
